@@ -303,7 +303,7 @@ def evaluate(builddir, spec, args, asan, valid=True, maxreport=6):
                 for prob in pred(spec, args, out.outputs)[:maxreport]:
                     vio.append(("output-mismatch", dict(prob, specialization=spec.name, oracle="predicate")))
         for kind, detail in vio:
-            if known is not None and known["match"](spec.name, kind, detail):
+            if known is not None and known["match"](spec.name, kind, detail, args):
                 out.known.append((known["mechanism"], kind))
             else:
                 out.violations.append((kind, detail))
@@ -405,7 +405,8 @@ def _values_equal_across(ta, va, tb, vb):
 def _report(ctx, kname, names, kind, detail):
     """A violation, unless it is a recorded defect of the unchanged tree (kernel_overrides.KNOWN_DEFECTS)."""
     known = ko.KNOWN_DEFECTS.get(kname) if not ko.strict() else None
-    if known is not None and any(known["match"](n, kind, detail) for n in names):
+    args = (ctx.case or {}).get("args", {})
+    if known is not None and any(known["match"](n, kind, detail, args) for n in names):
         ctx.cover("known-defect-reobserved", known["mechanism"])
         return
     ctx.violation(kind, detail)
